@@ -27,7 +27,7 @@ var props = map[string][]family{
 	"C08": {famHistWant("c08")},
 	"C09": {famHistWant("c09")},
 	"C06": {famRoundtrip},
-	"C13": {famPattern},
+	"C13": {famPattern, famNetip},
 	"C15": {famTwins},
 	"C07": {famConc},
 	"C07R": {famStress},
